@@ -8,18 +8,17 @@
    A-J with both memo tables, tied to the real rule by verdict, final memo tables and the
    sequence of memo decisions): termination on every document; every comparison skipped on a memo hit was started earlier
    under a flag that subsumes the query.
-   Relation of the memoised algorithm to [spec_conflicts]: "the memoisation never hides a
-   conflict" (specification conflict => the algorithm reports one) is proved for ALL documents,
-   cyclic fragments included ([C14_memo_never_hides]); the full equivalence is proved for documents
-   without named fragments ([C14_equiv_partial]).  NOT proved: the converse with fragments (a
-   conflict reported by the algorithm is one of the specification); the full statement
-   [C14_equiv_statement] is a definition, not a theorem, and is checked instance by instance by the
-   correspondence run of harness/c14.py (real rule vs extracted [spec_conflicts] vs extracted
-   [opt_conflicts]). *)
+   Relation of the memoised algorithm to [spec_conflicts]: EQUIVALENCE IS PROVED for every typable,
+   well-formed document, named / nested / mutually recursive / cyclic fragments included
+   ([C14_equiv]), from its two halves: the memoisation never hides a conflict
+   ([C14_memo_never_hides]: specification conflict => the algorithm reports one) and the algorithm
+   reports no conflict the specification does not have ([C14_memo_sound]).  What remains outside
+   Coq is the tie between the memoised MODEL and the real rule (verdict, memo decision trace and
+   final memo tables compared on every generated document by harness/c14.py). *)
 From Coq Require Import Permutation.
 From GV Require Import Base.Prelude Valid.Overlap Valid.OverlapProps Valid.PairSet Valid.PairSetProps
   Valid.OverlapOpt Valid.OverlapOptProps Valid.OverlapAdequacy Valid.OverlapEquiv Valid.OverlapOptTerm
-  Valid.OverlapMemoSound.
+  Valid.OverlapMemoSound Valid.OverlapMemoConv.
 
 (* PairSet: has after add; a non-exclusive entry answers the exclusive and the non-exclusive
    query, an exclusive entry only the exclusive query; the set is unordered; an addition is
@@ -135,23 +134,6 @@ Theorem C14_no_hidden_comparison : forall s d order fuel m,
 Proof. intros s d order fuel m H. exact (no_hidden_comparison s d order fuel m H). Qed.
 Print Assumptions C14_no_hidden_comparison.
 
-(* Equivalence of the memoised algorithm with the specification function, proved for documents
-   WITHOUT named fragments (hence _partial: there the memo tables are never consulted; what is
-   proved is that the algorithm's decomposition into "within one selection set" and "between
-   the sub-selections of two fields", evaluated on every selection set of the document, finds a
-   conflict iff the specification's all-pairs-of-the-merged-set recursion does).  Hypotheses:
-   no fragment definitions, every operation typable with a composite root type and free of
-   spreads, every operation visited, fuel >= twice the nesting depth, unique field ids. *)
-Theorem C14_equiv_partial : forall s d order fuel,
-  d_frags d = [] ->
-  (forall o, In o (d_ops d) ->
-     is_composite s (fst o) = true /\ typed_sels s (fst o) (snd o) /\ nospread (snd o)) ->
-  covers d order -> (2 * doc_dep d <= fuel)%nat ->
-  nodupb (doc_fids d) = true -> spec_verdict s d <> VUntyped ->
-  opt_conflicts s d order fuel = Some (spec_conflicts s d).
-Proof. intros s d order fuel Hnf Hops. exact (equiv_fragment_free s d Hnf Hops order fuel). Qed.
-Print Assumptions C14_equiv_partial.
-
 (* THE MEMOISATION NEVER HIDES A CONFLICT - for all documents, named and cyclic fragments
    included: whenever the specification function finds a conflict, the memoised algorithm (both
    memo tables, field maps per selection set, any visiting order that covers all definitions)
@@ -171,15 +153,37 @@ Theorem C14_memo_never_hides : forall s d ord fuel,
 Proof. intros s d ord fuel H1 H2 H3 H4 H5. exact (memo_never_hides s d ord H1 H2 H3 H4 H5 fuel). Qed.
 Print Assumptions C14_memo_never_hides.
 
-(* Stated, not proved (see the header): for typed documents with identifying ids, any visiting
-   order of the definitions and enough fuel, the memoised algorithm finds a conflict iff the
-   specification function does. *)
-Definition C14_equiv_statement : Prop :=
-  forall s d order,
-    spec_verdict s d <> VUntyped -> nodupb (doc_all_ids d) = true ->
-    Permutation order (default_order d) ->
-    exists fuel0, forall fuel, (fuel0 <= fuel)%nat ->
-      opt_conflicts s d order fuel = Some (spec_conflicts s d).
+(* EVERY CONFLICT THE MEMOISED ALGORITHM REPORTS IS A CONFLICT OF THE SPECIFICATION - for all
+   typable documents, cyclic fragments included (no false rejection).  Every pair of fields the
+   algorithm compares (within a set, fields vs fragment, fragment vs fragment, between the
+   sub-selections of two merged fields) co-occurs, under the same flag, in a merged set of the
+   specification; a conflict of such a pair yields - using that conflicts are symmetric up to a
+   conflict of the document, and that fragment collection is complete - a conflict of some
+   selection set of the document.  Hypotheses: the document can be typed (composite root and
+   fragment types, every field and type condition known), unique argument names, unique field ids. *)
+Theorem C14_memo_sound : forall s d ord fuel,
+  (forall o, In o (d_ops d) -> is_composite s (fst o) = true /\ typed_sels s (fst o) (snd o)) ->
+  (forall fd, In fd (d_frags d) -> is_composite s (fr_type fd) = true /\ typed_sels s (fr_type fd) (fr_body fd)) ->
+  (forall o, In o (d_ops d) -> args_ok (snd o)) ->
+  (forall fd, In fd (d_frags d) -> args_ok (fr_body fd)) ->
+  nodupb (doc_fids d) = true ->
+  opt_conflicts s d ord fuel = Some true -> spec_conflicts s d = true.
+Proof. intros s d ord fuel H1 H2 H3 H4 H5. exact (memo_sound s d H1 H2 H3 H4 H5 ord fuel). Qed.
+Print Assumptions C14_memo_sound.
+
+(* THE MEMOISED ALGORITHM ACCEPTS EXACTLY WHAT THE SPECIFICATION FUNCTION ACCEPTS: for every typable
+   well-formed document (unique ids, fragment names and argument names), every visiting order that
+   covers all definitions, and the fuel opt_fuel d (which C14_memoised_terminates shows sufficient). *)
+Theorem C14_equiv : forall s d ord fuel,
+  (forall o, In o (d_ops d) -> is_composite s (fst o) = true /\ typed_sels s (fst o) (snd o)) ->
+  (forall fd, In fd (d_frags d) -> is_composite s (fr_type fd) = true /\ typed_sels s (fr_type fd) (fr_body fd)) ->
+  (forall o, In o (d_ops d) -> args_ok (snd o)) ->
+  (forall fd, In fd (d_frags d) -> args_ok (fr_body fd)) ->
+  nodupb (doc_fids d) = true -> nodupb (doc_all_ids d) = true -> NoDup (map fr_name (d_frags d)) ->
+  covers_all d ord -> (opt_fuel d <= fuel)%nat ->
+  opt_conflicts s d ord fuel = Some (spec_conflicts s d).
+Proof. intros s d ord fuel H1 H2 H3 H4 H5 H6 H7. exact (memo_equiv s d H1 H2 H3 H4 H5 H6 H7 ord fuel). Qed.
+Print Assumptions C14_equiv.
 
 (* ---- non-vacuity ---- *)
 Definition ex_schema : schema :=
@@ -238,20 +242,25 @@ Example C14_example_opt :
   end.
 Proof. vm_compute. split; reflexivity. Qed.
 
-(* the hypotheses of C14_equiv_partial are satisfiable (a fragment-free document with a conflict) *)
+(* the hypotheses of C14_equiv are satisfiable: a cyclic fragment, typable, with a conflict *)
 Example C14_example_equiv_hyps :
-  let d := mkDoc [(10, SelInline 90 (Some 11) (SelField (fl 1 40 30) SelNil (SelField (fl 2 40 31) SelNil SelNil)) SelNil)] [] in
-  d_frags d = [] /\
-  (forall o, In o (d_ops d) ->
-     is_composite ex_schema (fst o) = true /\ typed_sels ex_schema (fst o) (snd o) /\ nospread (snd o)) /\
-  covers d (default_order d) /\ (2 * doc_dep d <= 10)%nat /\
-  nodupb (doc_fids d) = true /\ spec_verdict ex_schema d <> VUntyped /\
-  opt_conflicts ex_schema d (default_order d) 10 = Some true.
+  let d := mkDoc [(10, SelField (fl 1 22 22) (SelSpread 50 SelNil) SelNil)]
+                 [mkFrag 50 11 (SelField (fl 2 40 30) SelNil
+                                (SelField (fl 3 22 22) (SelSpread 50 (SelField (fl 4 40 31) SelNil SelNil)) SelNil))] in
+  (forall o, In o (d_ops d) -> is_composite ex_schema (fst o) = true /\ typed_sels ex_schema (fst o) (snd o)) /\
+  (forall fd, In fd (d_frags d) ->
+     is_composite ex_schema (fr_type fd) = true /\ typed_sels ex_schema (fr_type fd) (fr_body fd)) /\
+  nodupb (doc_fids d) = true /\ spec_conflicts ex_schema d = true.
 Proof.
-  cbn zeta. split; [reflexivity|]. split.
-  - intros o [<-|[]]. cbn. repeat split; eauto.
-  - split; [intros i Hi; cbn in *; assert (i = 0%nat) by lia; subst; left; reflexivity|].
-    split; [cbn; lia|]. split; [reflexivity|]. split; [vm_compute; discriminate | vm_compute; reflexivity].
+  cbn zeta. split.
+  { intros o [<-|[]]. cbn [fst snd typed_sels]. split; [reflexivity|]. split; [|exact I].
+    exists (TNamed 10). split; [reflexivity | exact I]. }
+  split.
+  { intros fd [<-|[]]. cbn [fr_type fr_body typed_sels]. split; [reflexivity|]. split.
+    - exists (TNamed 1). split; [reflexivity | exact I].
+    - split; [|exact I]. exists (TNamed 11). split; [reflexivity|]. cbn [named typed_sels].
+      split; [|exact I]. exists (TNamed 2). split; [reflexivity | exact I]. }
+  split; vm_compute; reflexivity.
 Qed.
 
 (* the hypotheses of C14_memo_never_hides hold on the cyclic example (and so does its conclusion) *)
